@@ -1,25 +1,26 @@
 (* C09: computed witness - a hidden edge and an iteration order under which a schema precedes its dependency *)
 From Coq Require Import String Ascii.
 From Coq Require Import List Arith Lia Bool.
-Require Import TT.Model.Base TT.Model.Str TT.Model.C07TypeParse TT.Model.Harvest TT.Model.C07Worklist TT.Model.C07Reach TT.Model.Topo.
+Require Import TT.Model.Base TT.Model.Str TT.Model.C07TypeParse TT.Model.C07Harvest TT.Model.C07Worklist TT.Model.C07Reach TT.Model.Topo.
 Require Import TT.Spec.C07Spec TT.Spec.C07Known TT.Spec.C09Spec TT.Spec.C09Known.
 Require Import TT.Proofs.TopoProofs TT.Proofs.C20Extra TT.Proofs.C09Proofs.
 Import ListNotations.
 
-Lemma hidden_edge_refuted :
-  ord_ok o_bad /\ in_domain w_hidden = true /\ spec_acyclic w_hidden = true /\ kf_c09_result_alias w_hidden = true /\
-  edges_recorded_b w_hidden = false /\
-  emitted_zod o_bad w_hidden = Some [L "Order"; L "Item"] /\
+(* the witness of the repaired defect C09-1: the edge Order -> Item is recorded now, and under the order
+   that used to put OrderSchema first, under the default order and under the sorted orders of the repaired
+   tool the dependency comes first *)
+Lemma hidden_edge_repaired :
+  ord_ok o_bad /\ in_domain w_hidden = true /\ spec_acyclic w_hidden = true /\
+  edges_recorded_b w_hidden = true /\
   In (L "Item") (schema_refs w_hidden (L "Order")) /\
-  idx_before [L "Order"; L "Item"] (L "Order") (L "Item") /\
-  emitted_zod o_default w_hidden = Some [L "Item"; L "Order"].
+  emitted_zod o_bad w_hidden = Some [L "Item"; L "Order"] /\
+  emitted_zod o_default w_hidden = Some [L "Item"; L "Order"] /\
+  emitted_zod o_sorted w_hidden = Some [L "Item"; L "Order"].
 Proof.
   split. { apply ord_ok_obs. repeat constructor; simpl; intuition discriminate. }
   split; [vm_compute; reflexivity|]. split; [vm_compute; reflexivity|]. split; [vm_compute; reflexivity|].
-  split; [vm_compute; reflexivity|]. split; [vm_compute; reflexivity|].
   split. { vm_compute. left. reflexivity. }
-  split. { exists 0, 1. repeat split; auto. }
-  vm_compute. reflexivity.
+  split; [vm_compute; reflexivity|]. split; vm_compute; reflexivity.
 Qed.
 
 Lemma sample_premises :
